@@ -211,5 +211,28 @@ impl LdapCodec {
 //@end
 }
 
+impl LdapCodec {
+// Decoder::decode (the definition compiled without the gssapi feature, nth=1): tokio-util's FramedRead calls THIS, not
+// decode_inner, once per read and again after every delivered frame.  Its contract is decode_inner's, clause for clause:
+// anything the wrapper adds (caching, a length peek, a skipped call) has to preserve every one of them.
+//@lift name=LdapCodec::decode file=src/protocol.rs impl="impl\s+Decoder\s+for\s+LdapCodec\s*\{" fn=decode nth=1
+//@ sub "Result<Option<Self::Item>, Self::Error>" => "Result<Option<(RequestId, (Tag, Vec<Control>))>, io::Error>"
+//@ ret r
+//@ spec
+    ensures
+        frame_status(old(buf).view()) is NeedMore ==> (r matches Ok(None)) && final(buf).view() == old(buf).view(), //# C06.codec_decode_incomplete_frame_leaves_buffer_intact
+        frame_status(old(buf).view()) matches FrameStatus::Frame(n, t) ==> final(buf).view() == old(buf).view().subrange(n as int, old(buf).view().len() as int), //# C06.codec_decode_consumes_exactly_the_frame
+        !(frame_status(old(buf).view()) is NeedMore) ==> !(r matches Ok(None)), //# C04+C06+C11.codec_decode_complete_frame_is_delivered_or_rejected
+        frame_status(old(buf).view()) is Invalid ==> r is Err, //# C04+C11.codec_decode_parser_failure_is_decoding_error
+        frame_status(old(buf).view()) matches FrameStatus::Frame(n, t) ==> (envelope(t) is None ==> r is Err), //# C04+C11.codec_decode_malformed_envelope_is_decoding_error
+        frame_status(old(buf).view()) matches FrameStatus::Frame(n, t) ==> (envelope(t) matches Some(e) ==>
+            ((e.controls matches Some(c) && controls_of(c) is None) ==> r is Err)), //# C04+C11.codec_decode_malformed_control_list_is_decoding_error
+        frame_status(old(buf).view()) matches FrameStatus::Frame(n, t) ==> (envelope(t) matches Some(e) ==>
+            (!(e.controls matches Some(c) && controls_of(c) is None) ==>
+            (r matches Ok(Some(m)) && m.0 == (be_uint(e.id_octets) as i32) && m.1.0 == Tag::StructureTag(e.op)
+             && (e.controls matches Some(c) ==> Some(m.1.1@) == controls_of(c)) && (e.controls is None ==> m.1.1@.len() == 0)))), //# C01+C03+C06.codec_decode_id_op_and_controls_from_the_same_envelope
+//@end
+}
+
 } // verus!
 fn main() {}
